@@ -36,7 +36,7 @@ ASSUMPTIONS = ['gfortran 12 -O0 with -fcheck=bounds,do -ftrapv -ffpe-trap is the
                'intent(in) actuals do not mention written or host-written variables',
                'recursion, sequence association (element actual for array dummy) and internal FUNCTIONS under '
                'inline_internal_procedures (documented as unsupported) are outside the domain',
-               'loki raising an exception (or not finishing within 30 s) on a generated input is counted as rejected, not as a violation']
+               'loki raising an exception (or not finishing within 20 s of CPU time) on a generated input is counted as rejected, not as a violation']
 SHARDS = {'quick': 8, 'thorough': 16}
 BUDGET = {'quick': 80, 'thorough': 1500}
 
@@ -46,7 +46,7 @@ TRAFO_DEFAULT = {'inline_constants': False, 'inline_elementals': True, 'inline_s
                  'inline_marked': True, 'remove_dead_code': True, 'adjust_imports': True, 'external_only': True}
 KIND_TO_APP = {'msub': ('marked',), 'isub': ('internal',), 'ifun': ('internal',), 'fun': ('functions',),
                'efun': ('functions', 'elemental'), 'sf': ('stmtfunc',), 'const': ('constants',)}
-LOKI_TIME_LIMIT = 30
+LOKI_TIME_LIMIT = 20
 
 # ---- listed known findings: trigger switched off in the generator ---------------------------------------------
 # (flag forced off for every program, reason counted with ctx.exclude when the drawn spec had it on)
@@ -56,6 +56,10 @@ EXCLUDE_FLAGS = [
     ('site_if1_call', 'known:one-line-if (subroutine inlined into the statement of a one-line IF)'),
     ('clash_actual', 'known:actual-mentions-dummy-name (actual argument mentions a caller variable named like a callee dummy)'),
     ('const_elseif', 'known:dead-code-elseif (remove_dead_code on ELSE IF with constant condition)'),
+    ('act_stride', 'known:strided-actual (stride of a section actual is dropped)'),
+    ('act_larger', 'known:larger-actual (whole array larger than the explicit-shape dummy)'),
+    ('lb_inquiry', 'known:bounds-inquiry (LBOUND/UBOUND of an array dummy with lower bound /= 1)'),
+    ('fn_in_while', 'known:function-in-while (function inlined out of a DO WHILE condition)'),
 ]
 
 
@@ -111,15 +115,28 @@ class LokiTimeout(Exception):
 
 @contextmanager
 def time_limit(seconds):
+    """limit on the CPU time (not wall time: the box may be loaded) that loki may spend on one input"""
+    warm()
+
     def handler(signum, frame):
-        raise LokiTimeout(f'loki did not finish within {seconds} s')
-    old = signal.signal(signal.SIGALRM, handler)
-    signal.setitimer(signal.ITIMER_REAL, seconds)
+        raise LokiTimeout(f'loki did not finish within {seconds} s of CPU time')
+    old = signal.signal(signal.SIGVTALRM, handler)
+    signal.setitimer(signal.ITIMER_VIRTUAL, seconds)
     try:
         yield
     finally:
-        signal.setitimer(signal.ITIMER_REAL, 0)
-        signal.signal(signal.SIGALRM, old)
+        signal.setitimer(signal.ITIMER_VIRTUAL, 0)
+        signal.signal(signal.SIGVTALRM, old)
+
+
+def warm():
+    """all imports happen outside the time limit (an interrupted import leaves half-initialised modules behind)"""
+    quiet()
+    import loki  # noqa
+    import loki.frontend  # noqa
+    import loki.transformations.inline  # noqa
+    import loki.transformations.remove_code  # noqa
+    from .. import irdump  # noqa
 
 
 def quiet():
@@ -248,9 +265,35 @@ def root_cause(text, ep, o):
         dn = set(dummies(r))
         if any(inner_names(a) & dn for a in actuals):
             return 'actual-mentions-dummy-name'
+    # 1b. strided section as actual argument / whole array larger than the explicit-shape dummy
+    for r, actuals, c in calls:
+        for a in actuals:
+            if isinstance(a, sym.Array) and any(isinstance(d, sym.RangeIndex) and d.step is not None
+                                                for d in (a.dimensions or ())):
+                return 'strided-actual'
+    for r, actuals, c in calls:
+        if isinstance(c, ir.CallStatement):
+            for d, a in c.arg_map.items():
+                if isinstance(d, sym.Array) and isinstance(a, sym.Array) and not a.dimensions:
+                    ed, ea = extents(d.shape), extents(a.shape)
+                    if ed and ea and ed != ea:
+                        return 'larger-actual'
+    # 1c. LBOUND / UBOUND of an array dummy with lower bound /= 1
+    for r in inl_subs + inl_funs:
+        shifted = {a.name.lower() for a in r.arguments if isinstance(a, sym.Array) and any(
+            isinstance(d, sym.RangeIndex) and d.lower is not None and intval(d.lower) != 1 for d in (a.shape or ()))}
+        for c in FindInlineCalls().visit(r.body):
+            if str(c.function).lower() in ('lbound', 'ubound') and c.parameters and \
+                    getattr(c.parameters[0], 'name', '').lower() in shifted:
+                return 'bounds-inquiry'
+    # 1d. function reference in a DO WHILE condition
+    for h in hosts:
+        for w in FindNodes(ir.WhileLoop).visit(h.body):
+            if any(str(c.function).lower() in funs for c in FindInlineCalls().visit(w.condition)):
+                return 'function-in-while'
     # 2. RETURN in an inlined subroutine
     for r in inl_subs:
-        if any(str(n.text).strip().lower() == 'return' for n in FindNodes(ir.Intrinsic).visit(r.body)):
+        if FindNodes(ir.ReturnStmt).visit(r.body):
             return 'callee-return'
     # 3. array dummy spelled differently from its declaration
     for r in inl_subs + inl_funs:
@@ -280,6 +323,47 @@ def root_cause(text, ep, o):
                 if cond.has_elseif and not FindVariables().visit(cond.else_body[0].condition):
                     return 'dead-code-elseif'
     return None
+
+
+def intval(e):
+    """value of a literal integer expression (IntLiteral, sums, products, unary minus), else None"""
+    from pymbolic import primitives as pp
+    from loki.expression import symbols as sym
+    if isinstance(e, int):
+        return e
+    if isinstance(e, sym.IntLiteral):
+        return int(e.value)
+    if isinstance(e, pp.Sum):
+        vs = [intval(c) for c in e.children]
+        return None if None in vs else sum(vs)
+    if isinstance(e, pp.Product):
+        vs = [intval(c) for c in e.children]
+        if None in vs:
+            return None
+        out = 1
+        for v in vs:
+            out *= v
+        return out
+    return None
+
+
+def extents(shape):
+    """tuple of literal extents of an explicit shape, else None"""
+    from loki.expression import symbols as sym
+    out = []
+    for d in shape or ():
+        if isinstance(d, sym.RangeIndex):
+            lo = 1 if d.lower is None else intval(d.lower)
+            hi = None if d.upper is None else intval(d.upper)
+            if lo is None or hi is None:
+                return None
+            out.append(hi - lo + 1)
+        else:
+            v = intval(d)
+            if v is None:
+                return None
+            out.append(v)
+    return tuple(out) or None
 
 
 def signature(text, ep, o, klass):
@@ -473,12 +557,19 @@ def confirm(files_name, text, cand_text, driver, state):
     return None
 
 
+def cpu_seconds():
+    import resource
+    a, b = resource.getrusage(resource.RUSAGE_SELF), resource.getrusage(resource.RUSAGE_CHILDREN)
+    return a.ru_utime + a.ru_stime + b.ru_utime + b.ru_stime
+
+
 # ---- evaluation of one program with a list of variants -----------------------------------------------------------
 def evaluate_program(spec, variants, rules=True):
     """
     -> (info, [result per variant]); result = dict(ep, opts, status in ok|fail|reject|skip|outside|ub|undef, ...)
     """
     from ..fprog.native import make_driver
+    c0 = cpu_seconds()
     case = GI.build(spec)
     rendered = harness.render_case(case)
     name, text = rendered[0]['name'], rendered[0]['text']
@@ -488,6 +579,7 @@ def evaluate_program(spec, variants, rules=True):
     order = case['meta']['hmod_order']
     info = {'case': case, 'text': text, 'features': sorted(feats)}
     results = []
+    c1 = cpu_seconds()
     sh = Shared(text, driver)
     try:
         before = None
@@ -517,9 +609,12 @@ def evaluate_program(spec, variants, rules=True):
             else:
                 by_text[cand] = k + 1
                 sh.add(k + 1, cand)
+        c2 = cpu_seconds()
         res = sh.results()
     finally:
         sh.close()
+    c3 = cpu_seconds()
+    info['cpu'] = {'generate': c1 - c0, 'loki': c2 - c1, 'gfortran+run': c3 - c2}
     o0 = res[0]
     if o0.stage.startswith('compile'):
         raise harness.GeneratorBug('original program does not compile:\n' + o0.err[-1500:] + '\n---\n' + text)
@@ -587,6 +682,8 @@ def report(ctx, spec, info, results, reduce=True):
                 detail = d2 or detail
             ctx.fail(sig, {'spec': small}, f'[{ep} {json.dumps(o, sort_keys=True)}] flags on: '
                      f'{",".join(GI.on_flags(small))}\n{detail}')
+    for k, v in info.get('cpu', {}).items():
+        ctx.extra['cpu_s:' + k] = round(ctx.extra.get('cpu_s:' + k, 0) + v, 2)
     if len(ctx.samples) < 2:
         ctx.sample({'features': feats, 'variants': [(r['ep'], r['status']) for r in results], 'source': info['text'][:3500]})
 
